@@ -588,6 +588,7 @@ where
             })?;
         let buf = trim_trail_empty_bytes(&self.buffer);
         if buf.is_empty() {
+            self.position += len as u64;
             return Ok(PrimitiveValue::Empty);
         }
 
@@ -627,6 +628,7 @@ where
             })?;
         let buf = trim_trail_empty_bytes(&self.buffer);
         if buf.is_empty() {
+            self.position += len as u64;
             return Ok(PrimitiveValue::Empty);
         }
 
@@ -659,6 +661,7 @@ where
             })?;
         let buf = trim_trail_empty_bytes(&self.buffer);
         if buf.is_empty() {
+            self.position += len as u64;
             return Ok(PrimitiveValue::Empty);
         }
 
@@ -696,6 +699,7 @@ where
             })?;
         let buf = trim_trail_empty_bytes(&self.buffer);
         if buf.is_empty() {
+            self.position += len as u64;
             return Ok(PrimitiveValue::Empty);
         }
 
@@ -728,6 +732,7 @@ where
             })?;
         let buf = trim_trail_empty_bytes(&self.buffer);
         if buf.is_empty() {
+            self.position += len as u64;
             return Ok(PrimitiveValue::Empty);
         }
 
